@@ -112,6 +112,7 @@ structure Inv (s : Solver) (ds : List Lit) : Prop where
   valid : WatchValid s.cnf s.wl
   watch : ∀ st, st ∈ s.stack → WatchOK s.cnf s.wl st.model
   two : CnfNormal s.cnf → TwoWatch s.cnf s.wl
+  fuel : s.fuel = defaultFuel s.cnf
 
 theorem StackOK.top {cnf clauses numVars stack ds} (h : StackOK cnf clauses numVars stack ds) :
     ∃ top rest, stack = top :: rest ∧ rest ≠ [] ∧ LevelOK cnf clauses numVars top ds := by
@@ -274,7 +275,7 @@ theorem inv_decide_unsat {s s' : Solver} {ds : List Lit} {l : Lit} (hI : Inv s d
     (h : s.decide l = .ok s' .unsat) : Inv s' ds ∧ s'.stack = s.stack := by
   obtain ⟨top, rest, hst, wl', r', hd, hcase⟩ := decide_cases h
   rcases hcase with ⟨_, _, rfl⟩ | ⟨m', _, _, hr⟩
-  · refine ⟨⟨hI.numVars, hI.clauses, hI.nonempty, hI.stack, hd.valid hI.valid, ?_, fun hN => hd.twoWatch hN (hI.two hN)⟩, rfl⟩
+  · refine ⟨⟨hI.numVars, hI.clauses, hI.nonempty, hI.stack, hd.valid hI.valid, ?_, fun hN => hd.twoWatch hN (hI.two hN), hI.fuel⟩, rfl⟩
     intro st hmem
     have hmem' : st ∈ s.stack := hmem
     exact WatchOK.lower hd.newWatches (hI.stack.pext_top top rest hst st hmem') (hI.watch st hmem')
@@ -291,7 +292,7 @@ theorem inv_decide_ok {s s' : Solver} {ds : List Lit} {l : Lit} {r : DecisionRes
     rw [hst] at hst'
     cases hst'
     have hlev := levelOK_push hI.numVars hI.clauses htop hI.valid hd hl
-    refine ⟨⟨hI.numVars, hI.clauses, hI.nonempty, ?_, hd.valid hI.valid, ?_, fun hN => hd.twoWatch hN (hI.two hN)⟩, rfl⟩
+    refine ⟨⟨hI.numVars, hI.clauses, hI.nonempty, ?_, hd.valid hI.valid, ?_, fun hN => hd.twoWatch hN (hI.two hN), hI.fuel⟩, rfl⟩
     · show StackOK s.cnf s.clauses s.numVars (pushState s top m' :: s.stack) (l :: ds)
       rw [hst]
       have hs := hI.stack
@@ -312,7 +313,7 @@ theorem inv_pop {s : Solver} {d : Lit} {ds : List Lit} (hI : Inv s (d :: ds)) : 
     rw [hst] at hs
     cases hs with
     | push hrest _ _ =>
-      refine ⟨hI.numVars, hI.clauses, hI.nonempty, ?_, hI.valid, ?_, hI.two⟩
+      refine ⟨hI.numVars, hI.clauses, hI.nonempty, ?_, hI.valid, ?_, hI.two, hI.fuel⟩
       · show StackOK s.cnf s.clauses s.numVars s.stack.tail ds
         rw [hst]; exact hrest
       · intro st' hmem
@@ -335,7 +336,7 @@ theorem inv_new {cnf : Cnf} {s : Solver} (h : Solver.new cnf = some (some s)) : 
     (top := initState) (new := m) (solver_clauses_unique cnf 1) (initState_hash _)
     (fun i => by rw [show initState.model = PModel.empty from rfl, satOf_empty]; rfl)
     (by intro x b hx; simp [initState, PModel.empty] at hx) hbounded
-  refine ⟨⟨rfl, rfl, hne, ?_, hda.valid hv0, ?_, fun hN => hda.twoWatch hN (initWatches_twoWatch cnf hN)⟩, rfl⟩
+  refine ⟨⟨rfl, rfl, hne, ?_, hda.valid hv0, ?_, fun hN => hda.twoWatch hN (initWatches_twoWatch cnf hN), rfl⟩, rfl⟩
   · refine .base ⟨?_, by simp, hbounded, hupd.1, hupd.2, ?_⟩
     · intro x b hx a ha _
       obtain ⟨m'', e, he'⟩ := hda.sound hv0 a ha (by intro y v hy; simp [PModel.empty] at hy)
